@@ -86,7 +86,11 @@ func attStr(svs []simServe) string {
 			}
 			return 0
 		}
-		out = append(out, fmt.Sprintf("%s.%d.%d.%d.%s", s.kind, addrIdx(s.addr), b(s.hosted), b(s.inRange), s.outcome))
+		cur := ""
+		if s.notCurrent {
+			cur = ".stale"
+		}
+		out = append(out, fmt.Sprintf("%s.%d.%d.%d.%s%s", s.kind, addrIdx(s.addr), b(s.hosted), b(s.inRange), s.outcome, cur))
 	}
 	if len(out) == 0 {
 		return "-"
@@ -1146,6 +1150,63 @@ func metaSlowScenario(reestablish bool) string {
 	return fmt.Sprintf("c04 script %s %s unavailable=%d", name, strings.Join(results, ","), unavailable)
 }
 
+// moveDuringBackoffScenario (C01 / C04): a request is answered retry-later; while it waits, the
+// region moves (or splits) and the client learns the new location through another request. The
+// first request's next attempt must be routed from what the client now knows.
+func moveDuringBackoffScenario(split bool) string {
+	setSleepOverride(fastBackoff)
+	c := newSimCluster()
+	r := c.addRegion(nil, []byte("t"), nil, nil, "rs1:1")
+	sc := newSimClient(c)
+	defer sc.cl.Close()
+	get := func(k string) string {
+		ctx, cancel := context.WithTimeout(context.Background(), 8*time.Second)
+		defer cancel()
+		g, _ := hrpc.NewGet(ctx, []byte("t"), []byte(k))
+		_, err := sc.cl.Get(g)
+		return classOf(err)
+	}
+	warm := get("warm")
+	c.mu.Lock()
+	r.faults = append(r.faults, "REQ:retryable")
+	m0 := len(c.serves)
+	c.mu.Unlock()
+	var armed int32 = 1
+	other := "-"
+	backoffHook.Store(func() {
+		if !atomic.CompareAndSwapInt32(&armed, 1, 0) {
+			return
+		}
+		c.mu.Lock()
+		if split {
+			c.split(r, []byte("m"), "rs2:1", "rs3:1")
+		} else {
+			r.addr = "rs2:1"
+		}
+		c.mu.Unlock()
+		other = get("z-other") // this request is told NotServingRegion and finds the new location
+	})
+	res := get("zk")
+	backoffHook.Store(func() {})
+	settle()
+	c.mu.Lock()
+	var mine []simServe
+	for _, s := range c.serves[m0:] {
+		if string(s.key) == "zk" || s.kind == "probe" {
+			mine = append(mine, s)
+		}
+	}
+	c.mu.Unlock()
+	ev := "move-during-backoff"
+	if split {
+		ev = "split-during-backoff"
+	}
+	if warm != "ok" || other != "ok" {
+		res = "setup-" + warm + "-" + other
+	}
+	return fmt.Sprintf("c01w seq E:%s R:get:ok:%s:%s F:0", ev, res, attStr(mine))
+}
+
 type zkFixed string
 
 func (z zkFixed) LocateResource(zk.ResourceName) (string, error) { return string(z), nil }
@@ -1248,6 +1309,12 @@ func init() {
 		runSharded("C01", tier, seed, out, 16, func(shard, nsh int, emit func(string)) {
 			for i := shard; i < n; i += nsh {
 				emit(seqScenario(NewRNG(seed, fmt.Sprintf("c01w-%d", i)), "c01w"))
+			}
+			if shard == 2%nsh {
+				emit(moveDuringBackoffScenario(false))
+			}
+			if shard == 3%nsh {
+				emit(moveDuringBackoffScenario(true))
 			}
 		})
 	}
